@@ -5,6 +5,8 @@ CONSTANTS
   BaseIds = {1, 2, 3, 4, 5}
   KindIds = {1, 2, 3}
   FinalKindIds = {4, 5}
+  SampleMod = 1
+  SampleRes = 0
   QuorumLowerBound = TRUE
   EmitScenarios = TRUE
 INVARIANTS CodeSound BasesAccepted Emit
